@@ -636,7 +636,9 @@ impl<K, V, S> Inner<K, V, S> {
 
     #[inline]
     fn set_valid_after(&self, timestamp: Instant) {
-        self.valid_after.set_instant(timestamp);
+        // Two concurrent invalidate_all() calls may arrive here in the opposite
+        // order of their clock readings; the watermark must not move backwards.
+        self.valid_after.advance_instant(timestamp);
     }
 
     #[inline]
